@@ -472,6 +472,33 @@ def run(ctx):
         else:
             ctx.ok("C08.R5", key, sample="mems[K] under try/except KeyError -> return fallback")
 
+    # /proc/zoneinfo that cannot be opened for ANY reason (absent, masked by a container
+    # runtime, EACCES/EIO on a hardened procfs) selects the simple fallback: the call
+    # must still succeed
+    from ..core.astutil import enclosing_trys, path_templates
+    zo = [c_ for c_ in ast.walk(ca.node) if isinstance(c_, ast.Call)
+          and (dotted(c_.func) or "").split(".")[-1] in ("open_binary", "open_text", "open")
+          and c_.args and any(t_.endswith("/zoneinfo") for t_ in path_templates(repo, ca, c_.args[0]))]
+    ctx.require(zo, "calculate_avail_vmem: /proc/zoneinfo is no longer opened")
+    zgood = True
+    for c_ in zo:
+        st_ = next(s_ for s_ in ast.walk(ca.node) if isinstance(s_, ast.stmt)
+                   and not isinstance(s_, (ast.Try, ast.If, ast.FunctionDef, ast.With, ast.For,
+                                           ast.While))
+                   and any(x is c_ for x in ast.walk(s_)))
+        hs_ = [h for t_ in enclosing_trys(ca.node, st_) for h in t_.handlers]
+        if not any(handler_catches(h, ["OSError"]) and handler_catches(h, ["PermissionError"])
+                   for h in hs_):
+            zgood = False
+    if zgood:
+        ctx.ok("C08.R5", "zoneinfo-unreadable", sample="open(/proc/zoneinfo) under except OSError "
+               "-> fallback")
+    else:
+        ctx.fail("C08.R5", "zoneinfo-unreadable", ca.file, zo[0].lineno, ca.qual,
+                 "the handler around opening /proc/zoneinfo no longer covers every OSError "
+                 "(only a missing file): a zoneinfo masked by a container runtime or a hardened "
+                 "procfs (EACCES, EIO) makes virtual_memory() raise instead of using the fallback")
+
     # ------------------------------------------------------------------- R6
     ctx.rule("C08.R6", "swap counters: pswpin/pswpout are PAGES in /proc/vmstat; the "
              "reported sin/sout must be bytes (pages * page size)", floor=2)
